@@ -19,6 +19,17 @@ def _nt(rec):
     return len({str(r) for r in rec["D"]}) >= 2
 
 
+def _still_incomplete_without_empties():
+    """datasets of 3 rankings with an empty ranking that remain incomplete once it is removed"""
+    out = []
+    for D in grids.datasets(3, 3):
+        if [] in D and len(D) == 3:
+            rest = [r for r in D if r]
+            if len(rest) >= 2 and len({tuple(grids.dom(r)) for r in rest}) > 1:
+                out.append(D)
+    return out
+
+
 def stages(tier, rng, only=None):
     out = [ac.stage("grid3x2", PID, lambda: ac.cases(grids.datasets(3, 2), ["PickAPerm"], SCHEMES, all_schemes=True,
                                                      namings=["ints", "letters", "weird"]), _nt)]
@@ -26,8 +37,13 @@ def stages(tier, rng, only=None):
     out.append(ac.stage("random", PID, lambda: ac.cases([ac.random_dataset(rng, 7, 6) for _ in range(n_rand)],
                                                         ["PickAPerm"], SCHEMES + ac.grid_sample(rng, 10)), _nt))
     out.append(ac.stage("reuse_after_mutation", PID, lambda: ac.reuse_mutate_cases(
-        grids.datasets(3, 2) + [ac.random_dataset(rng, 6, 5, nmin=2) for _ in range(n_rand // 2)], ["PickAPerm"],
+        grids.datasets(3, 2) + _still_incomplete_without_empties()[::(3 if tier == "quick" else 1)]
+        + [ac.tied_heavy_dataset(rng) for _ in range(n_rand)]
+        + [ac.random_dataset(rng, 6, 5, nmin=2) for _ in range(n_rand // 2)], ["PickAPerm"],
         [ac.P_UNI1, ac.P_UNI1, ac.P_UNI5, ac.P_IND1], rng, flags=(1, 0), all_ops=True), _nt))
+    out.append(ac.stage("majority_lookalikes", PID, lambda: ac.cases(
+        ac.majority_datasets(), ["PickAPerm"], [ac.P_UNI1, ac.P_UNI5, ac.P_PSE1, ac.P_EXT], flags=(0, 1),
+        namings=["weird", "weird", "letters"], all_schemes=True), _nt))
     out.append(ac.stage("reuse_other_dataset", PID, lambda: ac.reuse_other_cases(
         grids.datasets(3, 2) + [ac.random_dataset(rng, 6, 5, nmin=2) for _ in range(n_rand // 2)], ["PickAPerm"],
         SCHEMES, rng, flags=(1, 0)), _nt))
